@@ -941,6 +941,74 @@ pub fn execute_interleaved(cases: &[Case], migrate: bool) -> Vec<Option<(Outcome
     done
 }
 
+/// The lower-level route the crate exposes with its `unstable` feature: CanonicalRequest::from_request_parts →
+/// get_authenticator → SigV4Authenticator::validate_signature, with a caller-chosen tolerance (seconds) for the timestamp.
+#[cfg(feature = "unstable-api")]
+pub fn execute_direct(case: &Case, tolerance_s: i64) -> Record {
+    use scratchstack_aws_signature::canonical::CanonicalRequest;
+    let req = match build_request(&case.wire) {
+        Ok(r) => r,
+        Err(e) => {
+            return Record {
+                outcome: Outcome::NotBuilt(e),
+                events: Vec::new(),
+                polls: 0,
+                submitted: None,
+                view: None,
+            }
+        }
+    };
+    let view = view_of(&req);
+    let submitted = copy_parts(req.method(), req.uri(), req.version(), req.headers());
+    let cfg = &case.cfg;
+    let mut prov = Prov::new(case.script.clone());
+    let opts = SignatureOptions {
+        s3: cfg.s3,
+        url_encode_form: cfg.fold,
+    };
+    let a: Vec<&str> = cfg.reqs.always.iter().map(|s| s.as_str()).collect();
+    let i: Vec<&str> = cfg.reqs.if_req.iter().map(|s| s.as_str()).collect();
+    let p: Vec<&str> = cfg.reqs.prefixes.iter().map(|s| s.as_str()).collect();
+    let reqs = VecSignedHeaderRequirements::new(&a, &i, &p);
+    let (parts, body) = req.into_parts();
+    let mut polls = 0;
+    let staged = catch_unwind(AssertUnwindSafe(|| -> Result<_, SignatureError> {
+        let (cr, parts, body) = CanonicalRequest::from_request_parts(parts, body, opts)?;
+        let auth = cr.get_authenticator(&reqs)?;
+        Ok((auth, parts, body))
+    }));
+    let outcome = match staged {
+        Err(_) => {
+            let (msg, loc) = take_panic();
+            Outcome::Panic {
+                msg,
+                loc,
+            }
+        }
+        Ok(Err(e)) => Outcome::Err(describe_error(Box::new(e))),
+        Ok(Ok((auth, parts, body))) => {
+            let fut = async {
+                let resp = auth.validate_signature(&cfg.region, &cfg.service, to_datetime(cfg.now), chrono::Duration::seconds(tolerance_s), &mut prov).await?;
+                Ok::<_, BoxError>((parts, body, resp))
+            };
+            let (r, n) = drive(fut);
+            polls = n;
+            match r {
+                Err(o) => o,
+                Ok(v) => outcome_of(v),
+            }
+        }
+    };
+    let events = prov.take_events();
+    Record {
+        outcome,
+        events,
+        polls,
+        submitted: Some(submitted),
+        view: Some(view),
+    }
+}
+
 /// Execute one case on a caller-owned provider (histories sharing one provider instance).
 pub fn execute_with(case: &Case, prov: &mut Prov) -> Record {
     let req = match build_request(&case.wire) {
